@@ -17,7 +17,7 @@ import tempfile
 from lib.core import ShardResult
 
 LEVEL = 'exploration'
-RULE = ('every concatenation of <= N atoms (quick 3, thorough 5) over 15 atoms as require() string (in 7 spellings of the call: parentheses, string-call sugar with each quote kind, with options, inside expressions) x 5 load-path '
+RULE = ('every concatenation of <= N atoms (quick 3, thorough 5) over 15 atoms as require() string (in 9 spellings/positions of the call: parentheses, string-call sugar with each quote kind, with options, inside expressions) x 5 load-path '
         'settings (default, ?/init.lua, lib/?.lua, absolute dir, PICO8_LUA_PATH environment variable) and as #include '
         'path x 4 cart locations (plain directory, below the PICO-8 carts root, in and below a sibling "carts2" sharing '
         'the root\'s name prefix); non-trivial = the string contains "..", "/" at the start, an absolute path or a '
@@ -137,7 +137,7 @@ def location_class(sb, rp):
 LOADPATHS = ['default', 'init', 'libdir', 'absolute', 'env']
 
 
-FORMS = ['paren', 'sugar-dq', 'sugar-sq', 'sugar-long', 'assign-sugar', 'paren-opts', 'expr-paren']
+FORMS = ['paren', 'sugar-dq', 'sugar-sq', 'sugar-long', 'assign-sugar', 'paren-opts', 'expr-paren', 'call-arg', 'call-prefix']
 
 
 def require_call(p, form):
@@ -148,7 +148,9 @@ def require_call(p, form):
             'sugar-long': b'require[[' + q + b']]\n',
             'assign-sugar': b'local m = require "' + q + b'"\nx = m\n',
             'paren-opts': b'require("' + q + b'", {use_game_loop=true})\n',
-            'expr-paren': b'local m = {lib=require("' + q + b'")}\n'}[form]
+            'expr-paren': b'local m = {lib=require("' + q + b'")}\n',
+            'call-arg': b'f(1, require("' + q + b'"))\n',
+            'call-prefix': b'require("' + q + b'").f()\n'}[form]
 
 
 def check_require(sb, p, lp, res, form='paren'):
